@@ -21,6 +21,7 @@ CLAIMED = {
  "C06": core("The model's action menu contains every sanctioned storage path (Gc::write/unlock, Lock/RefLock/OnceLock setters, field!/unlock!, mutate_root/map_root/try_map_root, the four explicit barriers with optional arguments given and omitted, parent-only backward barrier followed by several adoptions, child-only forward barrier followed by adoption by several parents, barrier-only callbacks) on five object kinds; TLC enumerates path x phase x colour classes, each is executed in the real crate and the adopted target is followed to the end of the cycle and one further full cycle."),
  "C07": core("Model invariants C07_NoDeadReachable / DeadExact / ResurrectHolds; in the real crate every MarkedArena handed out is inspected (is_dead for every accessible object and weak target), resurrections chosen by TLC are performed, and the monitor checks dead<=>unreachable (when no mutation since marking began), resurrect's result, survival of the resurrected closure through the cycle and the return to Marking."),
  "C08": core("Action property C08_PhaseProtocol on the model; the same PhaseOK/MarkedOK tables judge every recorded call (kind, phase before, phase after, MarkedArena returned) and every callback of the real crate."),
+ "C11": core("The model's Next is extended with trace panics (k-th Collect::trace invocation of a call, after j children, for objects and for the root), callbacks that panic after their last step (mutate, mutate_root, map_root, try_map_root), try_map_root returning Err and failing Arena::new / try_new constructors; ALL invariants of C01-C07 are required in every post-fault state.  Each fault class is replayed in the real crate with the panic injected at exactly that trace call (catch_unwind), the behaviour continues, and the C01-C05 monitor rules plus 'a consumed arena releases everything' judge the recorded trace."),
 }
 
 checks = []
